@@ -119,11 +119,11 @@ func c20Op(kind string, seed uint64) string {
 			out = fmt.Sprintf("%s/%v/%v/%d", sha(b), err != nil, rerr != nil, n)
 		case len(kind) > 6 && kind[:6] == "write-":
 			s := richSubtitles(r)
-			if ind := r.Intn(4); kind == "write-ttml" && ind > 0 {
+			if ind := r.Intn(6); kind == "write-ttml" && ind > 0 {
 				// the writer's option: it concerns this call only
 				var b bytes.Buffer
 				var err error
-				if ind == 3 {
+				if ind >= 3 {
 					err = s.WriteToTTML(&b, c20SharedOptions...) // (option values are not documents: handing the same ones to every call is fair)
 				} else {
 					err = s.WriteToTTML(&b, astisub.WriteToTTMLWithIndentOption([]string{"", "\t"}[ind-1]))
